@@ -14,6 +14,7 @@ enum TaskKind {
     /// read().await; park; drop guard
     RGuard,
     Set(u8),
+    SetIfNotEq(u8),
     Get,
     /// sub.next().await on subscriber s
     SubNext(u8),
@@ -27,6 +28,9 @@ enum ATok {
     Poll(u8),
     OpenGate(u8),
     Cancel(u8),
+    /// open every gate and poll woken tasks (in spawn order, repeatedly)
+    /// until nothing is left to poll
+    Settle,
 }
 
 #[derive(Clone, Debug)]
@@ -35,6 +39,8 @@ struct ACfg {
     max_tasks: u8,
     /// poll tasks only when their waker was woken (plus the spawning poll)
     only_woken: bool,
+    /// small alphabet (no cancel, fewer task kinds) for the deeper sweep
+    small: bool,
 }
 
 #[derive(Clone, Hash, Debug)]
@@ -71,6 +77,7 @@ type ASh = SharedObservable<PV, AsyncLock>;
 enum TaskOut {
     GuardDone,
     Prev(u8),
+    OptPrev(Option<u8>),
     Value(u8),
     Sub(ASub, Option<u8>),
     SubNow(ASub, u8),
@@ -100,18 +107,26 @@ impl Harness for AGuardH {
 
     fn enabled(&self, cfg: &ACfg, m: &AModel, out: &mut Vec<ATok>) {
         let alive = m.tasks.iter().filter(|t| t.1).count() as u8;
-        if alive < cfg.max_tasks && (m.tasks.len() as u8) < cfg.max_tasks + 2 {
+        if alive < cfg.max_tasks && (m.tasks.len() as u8) < cfg.max_tasks + 3 {
             out.push(ATok::Spawn(TaskKind::WGuard(Some(1))));
-            out.push(ATok::Spawn(TaskKind::WGuard(None)));
             out.push(ATok::Spawn(TaskKind::RGuard));
             out.push(ATok::Spawn(TaskKind::Set(2)));
-            out.push(ATok::Spawn(TaskKind::Get));
+            out.push(ATok::Spawn(TaskKind::SetIfNotEq(2)));
+            if !cfg.small {
+                out.push(ATok::Spawn(TaskKind::WGuard(None)));
+                out.push(ATok::Spawn(TaskKind::Get));
+            }
             for s in 0..cfg.nsubs {
                 if !m.sub_busy[s as usize] {
                     out.push(ATok::Spawn(TaskKind::SubNext(s)));
-                    out.push(ATok::Spawn(TaskKind::SubNextNow(s)));
+                    if !cfg.small {
+                        out.push(ATok::Spawn(TaskKind::SubNextNow(s)));
+                    }
                 }
             }
+        }
+        if alive > 0 {
+            out.push(ATok::Settle);
         }
         for (k, t) in m.tasks.iter().enumerate() {
             if t.1 {
@@ -119,7 +134,9 @@ impl Harness for AGuardH {
                 if matches!(t.0, TaskKind::WGuard(_) | TaskKind::RGuard) && !t.2 {
                     out.push(ATok::OpenGate(k as u8));
                 }
-                out.push(ATok::Cancel(k as u8));
+                if !cfg.small {
+                    out.push(ATok::Cancel(k as u8));
+                }
             }
         }
     }
@@ -140,6 +157,20 @@ impl Harness for AGuardH {
             ATok::Cancel(k) => {
                 m.tasks[k as usize].1 = false;
                 // a cancelled subscriber task loses its subscriber: it stays busy
+            }
+            ATok::Settle => {
+                // everything that can finish has finished; subscriber tasks
+                // with nothing to observe stay (the enumeration model keeps
+                // them alive, `run` knows better)
+                for t in m.tasks.iter_mut() {
+                    t.1 = false;
+                    t.2 = true;
+                }
+                // a subscriber task with nothing to observe is still pending;
+                // spawning on its subscriber is then a no-op in `run`
+                for b in m.sub_busy.iter_mut() {
+                    *b = false;
+                }
             }
         }
     }
@@ -221,6 +252,7 @@ impl AWorld {
                 })
             }
             TaskKind::Set(v) => Box::pin(async move { TaskOut::Prev(ob.set(PV::mk(v)).await.code()) }),
+            TaskKind::SetIfNotEq(v) => Box::pin(async move { TaskOut::OptPrev(ob.set_if_not_eq(PV::mk(v)).await.map(|p| p.code())) }),
             TaskKind::Get => Box::pin(async move { TaskOut::Value(ob.get().await.code()) }),
             TaskKind::SubNext(s) => {
                 let mut sub = self.subs[s as usize].take().expect("subscriber is free");
@@ -263,7 +295,7 @@ impl AWorld {
         match r {
             Poll::Pending => {
                 self.tasks[k].flag = Some(flag);
-                if !was_holding && (w_before > 0 || (r_before > 0 && matches!(kind, TaskKind::Set(_) | TaskKind::WGuard(_)))) {
+                if !was_holding && (w_before > 0 || (r_before > 0 && matches!(kind, TaskKind::Set(_) | TaskKind::SetIfNotEq(_) | TaskKind::WGuard(_)))) {
                     st.mark("task_waits_for_the_lock");
                     if matches!(kind, TaskKind::SubNext(_)) && w_before > 0 {
                         st.mark("subscriber_polled_under_write_guard");
@@ -300,6 +332,21 @@ impl AWorld {
                         }
                         self.value = v;
                         self.epoch += 1;
+                    }
+                    (TaskKind::SetIfNotEq(v), TaskOut::OptPrev(p)) => {
+                        let exp = if self.value != v { Some(self.value) } else { None };
+                        if p != exp {
+                            return Err(self.v("set_if_not_eq-return", format!("task {k}: set_if_not_eq({v}) returned {p:?} when the value was {}, expected {exp:?}", self.value)));
+                        }
+                        if exp.is_some() {
+                            if r_before > 0 {
+                                return Err(self.v("exclusion/set-under-read-guard", format!("task {k}: set_if_not_eq stored while a read guard is held")));
+                            }
+                            self.value = v;
+                            self.epoch += 1;
+                        } else {
+                            st.mark("conditional_setter_declined_after_waiting");
+                        }
                     }
                     (TaskKind::Get, TaskOut::Value(x)) => {
                         if x != self.value {
@@ -338,51 +385,9 @@ impl AWorld {
         }
     }
 
-    fn exec(&mut self, toks: &[ATok], st: &mut Stats) -> Result<(), Violation> {
-        for (i, t) in toks.iter().enumerate() {
-            self.step = i;
-            match *t {
-                ATok::Spawn(kind) => {
-                    self.spawn(kind);
-                    let k = self.tasks.len() - 1;
-                    self.poll_task(k, st)?;
-                }
-                ATok::Poll(k) => {
-                    let k = k as usize;
-                    if self.cfg.only_woken {
-                        if let Some(f) = &self.tasks[k].flag {
-                            if !f.woken() {
-                                continue;
-                            }
-                        }
-                    }
-                    self.poll_task(k, st)?;
-                }
-                ATok::OpenGate(k) => {
-                    let w = {
-                        let mut g = self.tasks[k as usize].gate.borrow_mut();
-                        g.open = true;
-                        g.waker.take()
-                    };
-                    if let Some(w) = w {
-                        w.wake();
-                    }
-                }
-                ATok::Cancel(k) => {
-                    let t = &mut self.tasks[k as usize];
-                    if !t.done {
-                        if t.fut.is_some() && t.flag.is_some() {
-                            st.hit("pending_task_cancelled");
-                        }
-                        t.fut = None; // drops the future: guards and queue entries are released
-                        t.done = true;
-                    }
-                }
-            }
-        }
-        self.step = toks.len();
-        // Epilogue: open every gate, then poll only tasks whose waker was
-        // woken until none is left. Everything must drain.
+    /// Open every gate, then poll only tasks whose waker was woken (in spawn
+    /// order, repeatedly) until none is left.
+    fn settle(&mut self, st: &mut Stats) -> Result<(), Violation> {
         for t in &self.tasks {
             let w = {
                 let mut g = t.gate.borrow_mut();
@@ -409,6 +414,12 @@ impl AWorld {
                 break;
             }
         }
+        Ok(())
+    }
+
+    /// After settling, only a subscriber task with nothing to observe may
+    /// still be pending.
+    fn check_stuck(&self) -> Result<(), Violation> {
         for (k, t) in self.tasks.iter().enumerate() {
             if t.done || t.fut.is_none() {
                 continue;
@@ -428,6 +439,67 @@ impl AWorld {
                 ));
             }
         }
+        Ok(())
+    }
+
+    fn exec(&mut self, toks: &[ATok], st: &mut Stats) -> Result<(), Violation> {
+        for (i, t) in toks.iter().enumerate() {
+            self.step = i;
+            match *t {
+                ATok::Spawn(kind) => {
+                    if let TaskKind::SubNext(s) | TaskKind::SubNextNow(s) = kind {
+                        if self.subs[s as usize].is_none() {
+                            // its previous task is still pending: keep task
+                            // indices aligned with the enumeration model
+                            self.tasks.push(TaskR { kind, fut: None, gate: Rc::new(RefCell::new(GateState::default())), holding: Rc::new(RefCell::new(false)), flag: None, done: true });
+                            continue;
+                        }
+                    }
+                    self.spawn(kind);
+                    let k = self.tasks.len() - 1;
+                    self.poll_task(k, st)?;
+                }
+                ATok::Poll(k) => {
+                    let k = k as usize;
+                    if self.cfg.only_woken {
+                        if let Some(f) = &self.tasks[k].flag {
+                            if !f.woken() {
+                                continue;
+                            }
+                        }
+                    }
+                    self.poll_task(k, st)?;
+                }
+                ATok::OpenGate(k) => {
+                    let w = {
+                        let mut g = self.tasks[k as usize].gate.borrow_mut();
+                        g.open = true;
+                        g.waker.take()
+                    };
+                    if let Some(w) = w {
+                        w.wake();
+                    }
+                }
+                ATok::Settle => {
+                    self.settle(st)?;
+                    self.check_stuck()?;
+                }
+                ATok::Cancel(k) => {
+                    let t = &mut self.tasks[k as usize];
+                    if !t.done {
+                        if t.fut.is_some() && t.flag.is_some() {
+                            st.hit("pending_task_cancelled");
+                        }
+                        t.fut = None; // drops the future: guards and queue entries are released
+                        t.done = true;
+                    }
+                }
+            }
+        }
+        self.step = toks.len();
+        // Epilogue: everything must drain.
+        self.settle(st)?;
+        self.check_stuck()?;
         st.hit("drained");
         Ok(())
     }
